@@ -1,5 +1,6 @@
 import GambitV.Model.RefDb
 import Driver.Proto
+import Driver.PyGenCmp
 namespace Driver.C04
 open GambitV Driver
 
@@ -21,7 +22,9 @@ def handle : List String → Option String
     let attr ← parseAttr attr
     let gids ← parseOptNats gids
     let sids ← parseNats sids
-    pure (expect (match loadDb attr gids sids with | .ok m => pairsOf m | .error e => errOf e) real)
+    let r := expect (match loadDb attr gids sids with | .ok m => pairsOf m | .error e => errOf e) real
+    if r != "ok" then pure r else
+    pure ((PyGen.refdbInit attr gids sids real).getD "ok")
   | ["c04.locate", names, real] => do
     let names ← if names == "_" then some [] else (names.splitOn ";").mapM strOfHex
     let r := match locateFiles names with
